@@ -241,7 +241,7 @@ def trace_playback(harness, flags, timeout_s, mem_gb, logdir):
     return tests
 
 
-def native_replay(harness, vals, watchdog_s=20, release=False):
+def native_replay(harness, vals, watchdog_s=20, release=False, _retry=False):
     """Replays concrete values against the real code: the harness function is compiled natively
     (cargo kani playback = ordinary `cargo test` build with kani::any() fed from `vals`).
     Returns ('fail', text) if the harness panics/hangs natively, ('pass', text) otherwise."""
@@ -272,6 +272,13 @@ def native_replay(harness, vals, watchdog_s=20, release=False):
         except subprocess.TimeoutExpired:
             return "hang", "native replay still running after %d s (non-termination)" % watchdog_s
         txt = (r.stdout + r.stderr)[-4000:]
+        m = re.search(r"there were still these concrete values left over `\[(.*?)\]`\. This", r.stdout + r.stderr, re.S)
+        if m and not _retry:
+            # values drawn inside a stub (stubs are not applied natively, the real function runs instead): drop them and retry
+            n_left = len(re.findall(r"\[[0-9, ]*\]", m.group(1)))
+            if 0 < n_left < len(vals):
+                open(gen, "w").write(old if old else "// placeholder; overwritten by runner.py during native replay\n")
+                return native_replay(harness, vals[:len(vals) - n_left], watchdog_s, release, _retry=True)
         if "running 1 test" not in txt:
             return "error", "replay test did not run:\n" + txt
         if r.returncode != 0:
